@@ -266,7 +266,8 @@ def rule_listwho(ctx, rep):
                     rep.touch(f)
         pat.require(adders, "%s: no insertion into call_rcu_data_list found" % fl)
         extra = sorted(set(adders) - {"call_rcu_data_init"})
-        if extra and "call_rcu_data_init" not in adders:
+        still_there = any("call_rcu_data_init" in i.scope_chain for f_ in m.defined() for i in f_.all_insts())
+        if extra and "call_rcu_data_init" not in adders and not still_there:
             raise Broken("%s: call_rcu_data_list is extended by %s and call_rcu_data_init no longer does: renamed? table needs re-confirmation" % (fl, extra))
         rep.check(not extra, "C04.who", fl + ".list-extended-by", "helpers are put on call_rcu_data_list only by call_rcu_data_init",
                   "call_rcu_data_list is also extended in %s: a helper that links itself later can already hold callbacks that rcu_barrier() does not see" % extra,
